@@ -4,5 +4,5 @@ CONSTANTS
   NI = @@NI@@
   Aspect = "@@ASPECT@@"
   Emit = TRUE
-INVARIANTS SubReflexive SubTransitive IfaceInherited IfaceUpward MechanismAgrees DispatchDefined DispatchMostDerived ParentIsProperAncestor ChainVisitsEachDefinerOnce LikeMonotone
+INVARIANTS SubReflexive SubTransitive IfaceInherited IfaceUpward MechanismAgrees DispatchDefined DispatchMostDerived ParentIsProperAncestor ChainVisitsEachDefinerOnce StaticBindsBelowSelf LikeIgnoresNominal LikeMonotone
 CHECK_DEADLOCK FALSE
